@@ -148,6 +148,8 @@ pub enum Tamper {
     OtherIdentity,
     /// the identity with the case of its ASCII letters swapped (only when it has letters): another identity
     IdentityCase,
+    /// the genuine components in another order: 0 C1||C2||C3 (the 2016 draft layout), 1 C3||C1||C2 with the prefix byte kept in front, 2 C1||C3||reversed C2
+    Reordered(u8),
     /// C1 = (x, y+1): off the curve; C3/C2 left alone
     C1Nudged,
     /// C1 off the curve, with C2/C3 forged consistently from the *library's* pairing value e(C1', de)
@@ -205,6 +207,22 @@ pub fn check_tamper(c: &TCase) -> CaseResult {
         Tamper::OtherIdentity => {
             id.push(0x21);
             class = "other-identity";
+        }
+        Tamper::Reordered(kind) => {
+            if ct.len() < 98 {
+                return pass(false, "too-short-to-reorder");
+            }
+            let (c1, c3, c2) = (ct[..65].to_vec(), ct[65..97].to_vec(), ct[97..].to_vec());
+            let new = match kind % 3 {
+                0 => [&c1[..], &c2[..], &c3[..]].concat(),
+                1 => [&c1[..1], &c3[..], &c1[1..], &c2[..]].concat(),
+                _ => { let mut r = c2.clone(); r.reverse(); [&c1[..], &c3[..], &r[..]].concat() }
+            };
+            if new == ct {
+                return pass(false, "reordering-is-identity");
+            }
+            ct = new;
+            class = "components-reordered";
         }
         Tamper::IdentityCase => {
             match case_variant(&id) {
@@ -376,6 +394,7 @@ pub fn tamper_strategy() -> impl Strategy<Value = Tamper> {
         1 => Just(Tamper::C1Nudged),
         3 => any::<u64>().prop_map(Tamper::C1OffCurveForged),
         2 => any::<u16>().prop_map(Tamper::C1NearCurveForged),
+        2 => (0..3u8).prop_map(Tamper::Reordered),
         2 => any::<u8>().prop_map(Tamper::Prefix),
         1 => Just(Tamper::C1XPlusP),
         1 => Just(Tamper::C1YPlusP),
@@ -524,7 +543,7 @@ pub fn run(ctx: &Ctx) {
             for n in [0u16, 1, 2, 3, 254, 255, 256, 300] {
                 v.push(TCase { base: b.clone(), tamper: Tamper::Extend(n, 0x5c) });
             }
-            for t in [Tamper::None, Tamper::OtherIdentity, Tamper::C1Nudged, Tamper::C1XPlusP] {
+            for t in [Tamper::None, Tamper::OtherIdentity, Tamper::C1Nudged, Tamper::C1XPlusP, Tamper::Reordered(0), Tamper::Reordered(1), Tamper::Reordered(2)] {
                 v.push(TCase { base: b.clone(), tamper: t });
             }
             for j in 0..6u64 {
